@@ -553,6 +553,40 @@ def kinds_of(md):
     return sorted({type(e).__name__ + (":" + e.type if type(e).__name__ == "PrimitiveEntry" else "") for e in md.manifest.values()})
 
 
+def storage_roundtrip(md):
+    """Snapshot._write_snapshot_metadata -> in-memory storage plugin -> Snapshot._read_snapshot_metadata"""
+    import asyncio
+    import io
+    from torchsnapshot.io_types import StoragePlugin
+    from torchsnapshot.snapshot import Snapshot
+
+    class Mem(StoragePlugin):
+        def __init__(self):
+            self.d = {}
+
+        async def write(self, write_io):
+            self.d[write_io.path] = bytes(write_io.buf)
+
+        async def read(self, read_io):
+            read_io.buf = io.BytesIO(self.d[read_io.path])
+
+        async def delete(self, path):
+            pass
+
+        async def delete_dir(self, path):
+            pass
+
+        async def close(self):
+            pass
+    st = Mem()
+    loop = asyncio.new_event_loop()
+    try:
+        Snapshot._write_snapshot_metadata(snapshot_metadata=md, storage=st, event_loop=loop)
+        return Snapshot._read_snapshot_metadata(storage=st, event_loop=loop)
+    finally:
+        loop.close()
+
+
 def oracle_roundtrip(md, M, res: Result, objs=None):
     """SnapshotMetadata.from_yaml(md.to_yaml()) == md up to `readable`; get_value() bit-identical."""
     replay = {"kind": "roundtrip", "md": plain(md)}
@@ -581,6 +615,15 @@ def oracle_roundtrip(md, M, res: Result, objs=None):
             res.failures.append(Failure(f"C14:roundtrip-differs:{kind}",
                                         f"manifest read back differs from the one written at {[cps(p) for p in bad[:3]]}", replay))
         return doc
+    # the same through the real write/read path of the snapshot (utf-8 encode, storage plugin, decode)
+    try:
+        back2 = storage_roundtrip(md)
+        if not strict_eq(md, back2):
+            res.failures.append(Failure("C14:write-path-differs", "metadata written through Snapshot._write_snapshot_metadata and read "
+                                        "back through _read_snapshot_metadata differs from the one written", replay))
+    except Exception as e:
+        res.failures.append(Failure(f"C14:write-path-raises:{type(e).__name__}",
+                                    f"writing/reading the metadata through the storage path raised {type(e).__name__}: {str(e)[:200]}", replay))
     # get_value is preserved bit for bit
     for p, e in md.manifest.items():
         if type(e).__name__ == "PrimitiveEntry":
